@@ -424,10 +424,14 @@ class POP3CommandHandler:
         msg_bytes = msg_as_bytes(msg)
         size = len(msg_bytes)
         msg_bytes = dot_stuff(msg_bytes)
+        # NOTE: The message already ends with CRLF (msg_as_bytes() makes sure
+        #       of that.) Only the terminating line is added, otherwise the
+        #       client gets two more octets than announced.
+        #
+        if not msg_bytes.endswith(b"\r\n"):
+            msg_bytes += b"\r\n"
         await self.client.push(
-            f"+OK {size} octets\r\n".encode("latin-1")
-            + msg_bytes
-            + b"\r\n.\r\n"
+            f"+OK {size} octets\r\n".encode("latin-1") + msg_bytes + b".\r\n"
         )
         return True
 
@@ -541,7 +545,9 @@ class POP3CommandHandler:
         truncated_body = b"\r\n".join(body_lines[:num_lines])
         result = headers + b"\r\n" + truncated_body
         result = dot_stuff(result)
-        await self.client.push(b"+OK\r\n" + result + b"\r\n.\r\n")
+        if not result.endswith(b"\r\n"):
+            result += b"\r\n"
+        await self.client.push(b"+OK\r\n" + result + b".\r\n")
         return True
 
     ##################################################################
